@@ -26,6 +26,9 @@ pub struct InMemoryFileSystem {
     actual concurrent hashmap. Low priority since in-mem is mainly for testing.
     */
     files: Arc<RwLock<HashMap<PathBuf, LockableInMemoryFile>>>,
+
+    /// The paths that are currently locked through [`FileSystem::lock_file`].
+    locked_paths: Arc<RwLock<HashSet<PathBuf>>>,
 }
 
 impl InMemoryFileSystem {
@@ -33,7 +36,21 @@ impl InMemoryFileSystem {
     pub fn new() -> Self {
         InMemoryFileSystem {
             files: Arc::new(RwLock::new(HashMap::new())),
+            locked_paths: Arc::new(RwLock::new(HashSet::new())),
         }
+    }
+}
+
+/// The holder of the lock on a path of the in-memory file system.
+struct InMemoryLock {
+    path: PathBuf,
+    locked_paths: Arc<RwLock<HashSet<PathBuf>>>,
+}
+
+impl UnlockableFile for InMemoryLock {
+    fn unlock(&self) -> io::Result<()> {
+        self.locked_paths.write().remove(&self.path);
+        Ok(())
     }
 }
 
@@ -246,7 +263,15 @@ impl FileSystem for InMemoryFileSystem {
     }
 
     fn lock_file(&self, path: &Path) -> io::Result<super::FileLock> {
-        let lock_file: LockableInMemoryFile = match self.open_mem_file(path) {
+        let mut locked_paths = self.locked_paths.write();
+        if locked_paths.contains(path) {
+            return Err(io::Error::new(
+                io::ErrorKind::WouldBlock,
+                "The file is already locked.",
+            ));
+        }
+
+        let _lock_file: LockableInMemoryFile = match self.open_mem_file(path) {
             Err(io_error) => match io_error.kind() {
                 io::ErrorKind::NotFound => {
                     self.create_file(path, false)?;
@@ -257,7 +282,12 @@ impl FileSystem for InMemoryFileSystem {
             Ok(file) => Ok(file),
         }?;
 
-        Ok(FileLock::new(Box::new(lock_file)))
+        locked_paths.insert(path.to_path_buf());
+
+        Ok(FileLock::new(Box::new(InMemoryLock {
+            path: path.to_path_buf(),
+            locked_paths: Arc::clone(&self.locked_paths),
+        })))
     }
 }
 
